@@ -114,6 +114,32 @@ pub fn gen(tier: &str, seed: u64) -> Vec<String> {
             }
         }
     }
+    // (3b) on-idle with a plain key held through the countdown and beyond: a held key is not idleness
+    for d in [5u32, 20, 100] {
+        for hold in [d.saturating_sub(2), d + 1, d + 30, 3 * d] {
+            for arm_first in [true, false] {
+                let cfg = cfg_text(10, d, "q", "w");
+                let mut h = vec![];
+                if arm_first {
+                    h.push(KEv::L(HEv::Press(0, keys[6])));
+                    h.push(KEv::Gap(3));
+                    h.push(KEv::L(HEv::Release(0, keys[6])));
+                    h.push(KEv::Gap(2));
+                    h.push(KEv::L(HEv::Press(0, keys[7])));
+                } else {
+                    h.push(KEv::L(HEv::Press(0, keys[7])));
+                    h.push(KEv::Gap(2));
+                    h.push(KEv::L(HEv::Press(0, keys[6])));
+                    h.push(KEv::Gap(3));
+                    h.push(KEv::L(HEv::Release(0, keys[6])));
+                }
+                h.push(KEv::Gap(hold));
+                h.push(KEv::L(HEv::Release(0, keys[7])));
+                h.push(KEv::Gap(d + 40));
+                lines.push(mk_kline("KAN", false, &cfg, &h));
+            }
+        }
+    }
     // (4) random, unsettled: correspondence only
     let n4 = if thorough { 10000 } else { 1200 };
     for _ in 0..n4 {
